@@ -29,6 +29,11 @@ ASSUME = ["a first-arrival field with local speed >= D_min is |p-q|/D_min-Lipsch
           "segments inside the explosive", "gradients from 4th-order differences with Richardson error bars"]
 
 
+def whole_or(rng, v):
+    """one detonation time in four is a whole number given as a Python int (an array that takes its dtype from it truncates)"""
+    return int(round(v)) if rng.random() < 0.25 else v
+
+
 def unit_vec(rng, g):
     v = rng.normal(size=g)
     return v / np.linalg.norm(v)
@@ -81,7 +86,7 @@ def gen_k1(rng, i, tier):
     g = 2 + (i % 2)
     L = logu(rng, 1e-2, 1e3)
     return dict(geometry=g, D=logu(rng, 1e-2, 1e3), x_d=(rng.normal(size=g) * L).tolist(),
-                t_d=uni(rng, -5, 5), L=L, pts=(rng.normal(size=(40, g)) * L).tolist())
+                t_d=whole_or(rng, uni(rng, -5, 5)), L=L, pts=(rng.normal(size=(40, g)) * L).tolist())
 
 
 def run_k1(ctx, p):
@@ -216,7 +221,7 @@ def gen_k3(rng, i, tier):
         xd[int(rng.integers(g))] = lod * sgn(rng)
     else:
         xd = unit_vec(rng, g) * lod
-    return dict(geometry=g, R=R, D=logu(rng, 0.1, 10), x_d=[float(v) for v in xd], t_d=uni(rng, -2, 2),
+    return dict(geometry=g, R=R, D=logu(rng, 0.1, 10), x_d=[float(v) for v in xd], t_d=whole_or(rng, uni(rng, -2, 2)),
                 pseed=int(rng.integers(2 ** 31)))
 
 
@@ -355,7 +360,7 @@ def gen_dsd(rng, i, tier):
     a2 = choice(rng, [0.0, logu(rng, 1e-3, 1.0)])
     r1 = a1 / D1 * uni(rng, 1.05, 10) if a1 > 0 else logu(rng, 0.1, 10)
     r2 = max(r1 * uni(rng, 1.05, 5), a2 / D2 * uni(rng, 1.05, 3))
-    return dict(r_1=r1, r_2=r2, D_CJ_1=D1, D_CJ_2=D2, alpha_1=a1, alpha_2=a2, t_d=uni(rng, -2, 2),
+    return dict(r_1=r1, r_2=r2, D_CJ_1=D1, D_CJ_2=D2, alpha_1=a1, alpha_2=a2, t_d=whole_or(rng, uni(rng, -2, 2)),
                 pseed=int(rng.integers(2 ** 31)))
 
 
